@@ -1413,8 +1413,15 @@ where
         .iter()
         .enumerate()
         .map(|(idx, x)| {
-            let username = demangle_toml_string(x["username"].to_string());
-            let password = demangle_toml_string(x["password"].to_string());
+            // the TOML string value itself: escapes decoded, quotes and whitespace preserved
+            let string_value = |key: &str| {
+                x.get(key)
+                    .and_then(Item::as_str)
+                    .unwrap_or_default()
+                    .to_string()
+            };
+            let username = string_value("username");
+            let password = string_value("password");
 
             if username.is_empty() {
                 return Err(serde::de::Error::custom(format!(
@@ -1509,8 +1516,4 @@ where
     };
 
     Ok(Some(rules::RulesEngine::from_config(rules_config)))
-}
-
-fn demangle_toml_string(x: String) -> String {
-    x.replace('"', "").trim().to_string()
 }
